@@ -157,6 +157,32 @@ let listener_tokens (sch : sdef list) (sevs : sevent list) : string list =
     deliver { l_style = LUntypedConstraint; l_store = d.sd_name; l_types = [] } "uc" None true true) sch;
   List.sort compare !out
 
+(* ---- registrations with several change types (REGS section; harness store_c08_w2.go) ----
+   <style>:<store>:<types>, types over C U D (sync) / c u d (async) in the order of the Add*Listener call;
+   a delivery to registration k prints LM:<k>:<style>:<store>:<types>:<hex id>:<digest> *)
+let etype_of_char = function
+  | 'C' -> ECreated | 'U' -> EUpdated | 'D' -> EDeleted
+  | 'c' -> ECreatedAsync | 'u' -> EUpdatedAsync | _ -> EDeletedAsync
+
+let parse_reg (tok : string) : string * listener =
+  match String.split_on_char ':' tok with
+  | [sty; store; types] ->
+      let style = (match sty with "t" -> LTyped | "f" -> LFunction | "u" -> LUntyped | "i" -> LIdOnly
+                                | _ -> failwith ("bad registration style " ^ tok)) in
+      (tok, { l_style = style; l_store = name_of_string store;
+              l_types = List.init (String.length types) (fun i -> etype_of_char types.[i]) })
+  | _ -> failwith ("bad registration " ^ tok)
+
+let multi_tokens (regs : (string * listener) list) (sevs : sevent list) : string list =
+  let out = ref [] in
+  List.iteri (fun k (tok, l) ->
+    List.iter (fun se ->
+      List.iter (fun ((e : event), _async) ->
+        let dg = if l.l_style <> LIdOnly then view_digest se.se_view else "-" in
+        out := Printf.sprintf "LM:%d:%s:%s:%s" k tok (hex_of_bytes e.ev_id) dg :: !out)
+        (delivered_to l [se.se_ev])) sevs) regs;
+  List.sort compare !out
+
 (* ---- hook programs (alphabet: harness/cmd/storageharness/store_c08.go c08Exec) ----
    A program token becomes the context the caller prepared before the transaction (Store/TxHooks.v mctx)
    and the item tree of the function; '.' takes the next operation of the TX section, operations without
@@ -215,6 +241,9 @@ let () =
       let progs = (match peek () with
                    | Some "HOOKS" -> ignore (next ()); let n = next_int () in Array.of_list (repeat n next)
                    | _ -> [||]) in
+      let regs = (match peek () with
+                  | Some "REGS" -> ignore (next ()); let n = next_int () in List.map parse_reg (repeat n next)
+                  | _ -> []) in
       (* a caller that swallows vetoes leaves the machine's transaction discipline: not modelled *)
       if mode = "swl" then toks := [||];
       if mode = "swl" then print_endline "SKIP" else begin
@@ -256,6 +285,7 @@ let () =
           Printf.sprintf "EV:%s:%s:%s:%s" (string_of_name e.ev_store) (change_str e.ev_change) (hex_of_bytes e.ev_id) (bool_str e.ev_parent)) o.ho_events) in
         List.iter (fun e -> Buffer.add_char buf ' '; Buffer.add_string buf e) evl;
         List.iter (fun e -> Buffer.add_char buf ' '; Buffer.add_string buf e) (listener_tokens sch o.ho_events);
+        List.iter (fun e -> Buffer.add_char buf ' '; Buffer.add_string buf e) (multi_tokens regs o.ho_events);
         (* commit: every registration with its executions; rollback: only executions that must not be there (the
            pre-commit actions of a transaction whose function succeeded are not printed, see store_c08.go runTx) *)
         let body_failed = List.exists (fun r -> r <> None) o.ho_results in
